@@ -1065,6 +1065,9 @@ struct Ctx {
     rules_fired: BTreeMap<String, usize>,
     unit_props: Vec<String>,
     vacuity: bool,
+    /// `--ablate`: end-of-loop / end-of-function proof blocks are replaced by `assume(false)` -- a "body obligations only" variant
+    /// used as a fallback when the full query of a function runs into the resource limit
+    ablate: bool,
     defines: Vec<String>,
     /// names (last path segment) of every function that has a `//@fn` / `//@stmt` / `//@outline` contract in contracts/
     known: std::collections::BTreeSet<String>,
@@ -1247,7 +1250,7 @@ fn process_fn(ctx: &mut Ctx, d: &FnDirective, assume_default: bool, tfile: &str)
                         }
                         Some("inv") => ed.insert(lp.body_open, format!("\n{}        ", t), 0, a),
                         Some("top") => ed.insert(lp.body_open + 1, format!("\n{}", t.trim_end_matches('\n')), 0, a),
-                        Some("end") => ed.insert(lp.body_close, format!("{}        ", t), 3, a),
+                        Some("end") => { let t2 = if ctx.ablate { "proof { assume(false); } // ABLATED: body obligations only\n".to_string() } else { t.clone() }; ed.insert(lp.body_close, format!("{}        ", t2), 3, a) }
                         _ => lost("bad loop anchor"),
                     }
                 }
@@ -1290,9 +1293,11 @@ fn process_fn(ctx: &mut Ctx, d: &FnDirective, assume_default: bool, tfile: &str)
                 "before_tail" => {
                     let last = loc.block.stmts.last().unwrap_or_else(|| lost("empty body"));
                     let (s, _) = src.range(last.span());
-                    ed.insert(s, format!("{}        ", t), 2, a);
+                    let t2 = if ctx.ablate { "proof { assume(false); } // ABLATED: body obligations only\n".to_string() } else { t.clone() };
+                    ed.insert(s, format!("{}        ", t2), 2, a);
                 }
                 "at_end" => {
+                    let t = &(if ctx.ablate { "proof { assume(false); } // ABLATED: body obligations only\n".to_string() } else { t.clone() });
                     // end of the body: before a tail expression if the body has one, else at the closing brace
                     match loc.block.stmts.last() {
                         Some(syn::Stmt::Expr(e, None)) if !matches!(loc.sig.output, syn::ReturnType::Default) => {
@@ -1837,6 +1842,7 @@ fn main() {
     let mut out = None;
     let mut map = None;
     let mut vacuity = false;
+    let mut ablate = false;
     let mut i = 1;
     while i < args.len() {
         match args[i].as_str() {
@@ -1845,6 +1851,7 @@ fn main() {
             "--out" => { out = Some(PathBuf::from(&args[i + 1])); i += 1; }
             "--map" => { map = Some(PathBuf::from(&args[i + 1])); i += 1; }
             "--vacuity" => { vacuity = true; }
+            "--ablate" => { ablate = true; }
             x => fail(format!("unknown argument {}", x)),
         }
         i += 1;
@@ -1852,7 +1859,7 @@ fn main() {
     let template = template.unwrap_or_else(|| fail("--template required".into()));
     let out = out.unwrap_or_else(|| fail("--out required".into()));
     let tdir = template.parent().unwrap().to_path_buf();
-    let mut ctx = Ctx { repo, tdir, srcs: BTreeMap::new(), out: String::new(), out_line: 0, regions: vec![], rules_fired: BTreeMap::new(), unit_props: vec![], vacuity, defines: vec![], known: Default::default(), known_items: Default::default(), emitted_items: Default::default(), auto_text: String::new() };
+    let mut ctx = Ctx { repo, tdir, srcs: BTreeMap::new(), out: String::new(), out_line: 0, regions: vec![], rules_fired: BTreeMap::new(), unit_props: vec![], vacuity, ablate, defines: vec![], known: Default::default(), known_items: Default::default(), emitted_items: Default::default(), auto_text: String::new() };
     // R29 bookkeeping: every function named in any template of the contracts directory has a contract of its own
     {
         fn scan(dir: &Path, out: &mut std::collections::BTreeSet<String>, items: &mut std::collections::BTreeSet<String>) {
